@@ -87,7 +87,7 @@ pub mod verif_hooks {
     pub use super::receiver::{ItemResponse, LaneData, ResponseData, ResponseReceiver};
     pub use super::remotes::{RemoteSender, UplinkResponse};
     pub use super::write_fut::{WriteResult, WriteTask};
-    pub use super::{CommandChannelRequest, ExternalLinkRequest};
+    pub use super::{CommandChannelRequest, ExternalLinkRequest, HttpLaneRuntimeSpec};
 
     use super::{
         Initialization, RwCoordinationMessage, TaskMessageResult, WriteTaskMessage, WriteTaskState,
@@ -204,6 +204,25 @@ pub mod verif_hooks {
             self.0
                 .remove_remote(id, crate::agent::DisconnectionReason::RemoteTimedOut)
         }
+    }
+
+    /// The HTTP task of the agent runtime on its own (no HTTP lanes registered at the start).
+    pub async fn run_http_task(
+        stopping: swimos_utilities::trigger::Receiver,
+        config: crate::agent::AgentRuntimeConfig,
+        requests: tokio::sync::mpsc::Receiver<swimos_api::agent::HttpLaneRequest>,
+        registrations: tokio::sync::mpsc::Receiver<super::HttpLaneRuntimeSpec>,
+        stop_voter: crate::timeout_coord::Voter,
+    ) {
+        super::http_task(
+            stopping,
+            config,
+            requests,
+            vec![],
+            registrations,
+            stop_voter,
+        )
+        .await
     }
 
     /// What the read task and the attachment task tell the write task.
